@@ -7,6 +7,8 @@ CONSTANTS
   LocalQueueRef = TRUE
   StopOrder = "listener-first"
   Restart = FALSE
+  LateCb = FALSE
+  CbList = "live"
 INVARIANT ExactlyOnce
 INVARIANT NeverTwice
 INVARIANT CallbackOrder
